@@ -2,7 +2,7 @@
 
 For a request `hess <h> <w> <bits…>` and the implementation's observation `ok <H> <Q>`:
 
-  * non-square input must be `err nonsquare`, square input must be `ok`;
+  * non-square input must be refused (`err …`, any kind: the statement names none), square input must be `ok`;
   * n <= 2: H is A bit for bit and Q is the identity bit for bit;
   * n >= 3: every entry finite and, computed exactly from the bit patterns (every binary64 value is a
     dyadic rational m*2^e; the matrices are kept as integer matrices with one common exponent, so the
@@ -164,10 +164,105 @@ def measure(req, impl):
     return r1, r2, r3
 
 
+def compare(req, impl, model):
+    """Exact (`default_compare`) wherever the statement is exact: accepted vs rejected, shapes, sizes <= 2 (H = A and
+    Q = I bit for bit), non-finite entries.  Two refusals agree whatever their kind ("non-square input is rejected").
+
+    For n >= 3 the statement fixes (H, Q) only "to within n*eps*||A|| rounding" and only up to the signs of the
+    reflectors: for every diagonal D of +-1 with D_00 = 1, (D H D, Q D) satisfies every clause that (H, Q) satisfies
+    (Q^T Q = I, Q H Q^T = A, the zeros, trace, Frobenius norm), and the statement says itself that already reduced
+    columns may be skipped (a skipped column is a reflector replaced by the identity: D_kk = -1 against a code that
+    reflects it).  So the two answers agree when, with D read off the columns of the two Q (sign of the largest entry)
+    and b = 2^6 n u (the oracle's own bound), column by column
+        |Q_impl - Q_model D|_col j <= b amp_j      and      |H_impl - D H_model D|_col j <= b amp_j ||A||_F .
+    amp_j is the conditioning of the part of the reduction that column j depends on (the reflectors 0..j-1): a
+    perturbation of relative size e of the working matrix turns reflector k by about e ||A|| / ||x_k||, and ||x_k|| is
+    the sub-diagonal entry |H[k+1][k]|:   amp_j = 1 + 2^6 sum_{k<j} ||A||_F / |H_model[k+1][k]|   (first order, the
+    factors of successive steps not multiplied; calibrated on the re-associated reflector update of seeded/C14-b2:
+    largest observed difference 0.4 of this allowance).  A backward stable reduction is not forward stable where a
+    sub-column is tiny (graded, nearly reducible matrices) -- the statement's own bounds are backward bounds, and the
+    oracle judges the same answer against them with no amplification.
+    Where the model's sub-column k0 is zero to rounding (|H[k0+1][k0]| <= b ||A||_F: the reduction breaks down, the
+    reflector is either skipped or built from rounding noise) the columns after k0 are not determined by the input:
+    if the full comparison (which takes an exact zero for a structural one) fails, only the columns 0..k0 are compared.
+    Likewise the columns whose allowance b amp_j exceeds 2^-10 are not compared (seeded/C14-b2, thorough tier, 115 636
+    requests: the two answers differ by O(1) there, in 2 requests by more than the first-order estimate)."""
+    from __main__ import default_compare
+    why = default_compare(req, impl, model)
+    if why is None:
+        return None
+    if impl.split()[:1] == ["err"] and model.split()[:1] == ["err"]:
+        return None
+    if not (impl.startswith("ok ") and model.startswith("ok ")):
+        return why
+    try:
+        h, w, abits = parse_req(req)
+        (hh, hw, hb), (qh, qw, qb) = parse_ok(impl)
+        (mh, mw, mhb), (mqh, mqw, mqb) = parse_ok(model)
+    except Exception:
+        return why
+    n = h
+    if h != w or n <= 2 or (hh, hw, qh, qw) != (n, n, n, n) or (mh, mw, mqh, mqw) != (n, n, n, n):
+        return why
+    A = [f_of_bits(b) for b in abits]
+    Hi, Qi, Hm, Qm = ([f_of_bits(b) for b in x] for x in (hb, qb, mhb, mqb))
+    if not all(math.isfinite(x) for x in A + Hi + Qi + Hm + Qm):
+        return why
+    # exact power-of-two normalisation: the squares below stay in range for entries of any magnitude
+    e = math.frexp(max((abs(x) for x in A), default=0.0))[1]
+    A, Hi, Hm = ([math.ldexp(x, -e) for x in M] for M in (A, Hi, Hm))
+    fro = math.sqrt(sum(x * x for x in A))
+    if fro == 0.0:
+        return why
+    worst = deviation(n, fro, Hi, Qi, Hm, Qm)
+    if worst is None:
+        return why + " (first column of Q)"
+    if worst[0] <= 1.0:
+        return None
+    return why + " (up to reflector signs, column %d: Q differs by %.2e, H by %.2e*|A|_F; allowed %.2e = 2^6 n u * conditioning %.1e)" % (
+        worst[1], worst[2], worst[3], worst[4], worst[4] / (2.0 ** (C_EXP + U_EXP) * n))
+
+
+def deviation(n, fro, Hi, Qi, Hm, Qm):
+    """(largest difference / allowance, column, dQ, dH/|A|_F, allowance) of the comparison described in `compare`
+    (the full one, or the one restricted to the columns before the first breakdown when the full one fails);
+    None when the first columns of the two Q differ in sign (both are e_1)."""
+    d = []
+    for j in range(n):
+        r = max(range(n), key=lambda i: abs(Qm[i * n + j]))
+        d.append(1.0 if Qm[r * n + j] * Qi[r * n + j] >= 0.0 else -1.0)
+    if d[0] != 1.0:
+        return None
+    b = 2.0 ** (C_EXP + U_EXP) * n
+    sub = [abs(Hm[(k + 1) * n + k]) for k in range(n - 2)]
+    amp = [1.0]
+    for k in range(n - 1):
+        amp.append(amp[-1] + (2.0 ** 6 * fro / sub[k] if k < n - 2 and sub[k] > b * fro else 0.0))
+    broken = [k for k in range(n - 2) if sub[k] <= b * fro]
+    # an allowance beyond 2^-10 compares nothing (|Q_ij| <= 1): from there on the columns are not determined either
+    jmax = max(j for j in range(n) if b * amp[j] <= 2.0 ** -10 or j == 0)
+    worst = None
+    for last in ([jmax] + [min(jmax, k) for k in broken[:1]]):
+        worst = (0.0, 0, 0.0, 0.0, b)
+        for j in range(last + 1):
+            tol = b * amp[j]
+            for i in range(n):
+                dq = abs(Qi[i * n + j] - d[j] * Qm[i * n + j])
+                dh = abs(Hi[i * n + j] - d[i] * d[j] * Hm[i * n + j]) / fro
+                # below the first sub-diagonal both entries are rounding noise of either sign
+                r = max(dq, dh / 2.0 if i > j + 1 else dh) / tol
+                if r > worst[0]:
+                    worst = (r, j, dq, dh, tol)
+        if worst[0] <= 1.0:
+            return worst
+    return worst
+
+
 def oracle(req, impl):
     h, w, abits = parse_req(req)
     if h != w:
-        return None if impl == "err nonsquare" else f"non-square {h}x{w} input: expected NonSquareMatrix, got {impl[:40]}"
+        # "non-square input is rejected": any error is a rejection, the statement names no kind
+        return None if impl.split()[:1] == ["err"] else f"non-square {h}x{w} input: expected a rejection, got {impl[:40]}"
     if not impl.startswith("ok "):
         return f"square {h}x{w} input: expected Ok, got {impl[:40]}"
     n = h
